@@ -146,3 +146,28 @@ Theorem C12_stale_flag_refuted :
   end.
 Proof. vm_compute. repeat split. Qed.
 Print Assumptions C12_stale_flag_refuted.
+
+(** the second route to the same state (found by a review, not by a generator): the scan that leaves the flag set is
+    the one [stabilize] makes, its recovery error swallowed by [maybe]. "c;c;" with whitespace filtered,
+    both(recover(one a, after ';'), maybe(stabilize(one b))): the first invocation resumes at the second "c" (byte 2)
+    as it should; the second invocation of the same parser objects, started there with the store the first one
+    left, "recovers" with zero progress (byte 2 again) although the only ';' ahead is the last token, where a fresh
+    parser fails with a recovery error. *)
+Theorem C12_stale_flag_via_stabilize_refuted :
+  let t := [Ch 1 1 3; Ch 1 1 14; Ch 1 1 3; Ch 1 1 14] in
+  let g := GBoth (GRecover (7, RAfter [KSemi]) (GOne KA)) (GMaybe (GStabilize (GOne KB))) in
+  match c_with_filter (c_new Plain t) (Some (FDrop [KWs])) with
+  | Ok lx =>
+    match run 20 g lx (ctx_new true) (mkstore [] []) with
+    | (ROk _ lx1, st1) =>
+      byte (c_cursor_pos lx1) = 2 /\ is_found st1 7 = true /\
+      match run 20 g lx1 (ctx_new true) st1, run 20 g lx1 (ctx_new true) (mkstore [] (log st1)) with
+      | (ROk _ lx2, _), (RErr ERecover, _) => byte (c_cursor_pos lx2) = 2
+      | _, _ => False
+      end
+    | _ => False
+    end
+  | _ => False
+  end.
+Proof. vm_compute. repeat split. Qed.
+Print Assumptions C12_stale_flag_via_stabilize_refuted.
